@@ -381,6 +381,8 @@ func (g *gen) next() []string {
 	switch {
 	case r < 5:
 		return g.genRegisterTLD()
+	case r < 8:
+		return g.genDeepConflict()
 	case r < 28:
 		return g.genRegister()
 	case r < 36:
@@ -405,8 +407,10 @@ func (g *gen) next() []string {
 		return g.genCnameChain()
 	case r < 94:
 		return g.genSubnameConflict()
-	case r < 97:
+	case r < 96:
 		return g.genRoleMatrix()
+	case r < 98:
+		return g.genFormerAdmin()
 	default:
 		t := g.advance()
 		n := g.someName(2)
@@ -885,5 +889,162 @@ func (g *gen) genRoleMatrix() []string {
 		}
 	}
 	out = append(out, g.q(g.t, "properties", hexs(n)), g.q(g.t, "getRecords", hexs(n), fmt.Sprint(typTXT)), g.q(g.t, "getRecords", hexs(n), "6"))
+	return out
+}
+
+// genFormerAdmin: the history "setAdmin(A); transfer to B; A alone mutates": the owner appoints an admin and
+// transfers the name to somebody else; then the former admin alone, the former owner alone and both together try
+// every kind of mutation (all must be refused: the transfer cleared the admin), and finally the new owner succeeds.
+func (g *gen) genFormerAdmin() []string {
+	var cands []string
+	for _, n := range g.liveNames(2) {
+		if ns := g.w.prev.names[n]; len(ns.owner) == 20 {
+			if _, ok := g.w.users[hx.Hex(ns.owner)]; ok && hx.Hex(ns.owner) != g.w.cmt {
+				cands = append(cands, n)
+			}
+		}
+	}
+	if len(cands) == 0 {
+		return g.genRegister()
+	}
+	n := hx.Pick(g.rng, cands)
+	owner := hx.Hex(g.w.prev.names[n].owner)
+	var others []string
+	for _, u := range g.w.uhash {
+		if u != owner {
+			others = append(others, u)
+		}
+	}
+	g.rng.Shuffle(len(others), func(i, j int) { others[i], others[j] = others[j], others[i] })
+	adm, to := others[0], others[1]
+	g.nTXT++
+	out := []string{
+		g.line(g.advance(), []string{owner, adm}, 0, 0, "setAdmin", hexs(n), adm),
+		g.line(g.advance(), []string{adm}, 0, 0, "addRecord", hexs(n), fmt.Sprint(typTXT), hexs(fmt.Sprintf("adm%d", g.nTXT))), // still the admin: accepted
+		g.line(g.advance(), []string{owner}, 0, 0, "transfer", to, hexs(n)),
+		g.q(g.t, "properties", hexs(n)),
+	}
+	mutate := func(hs []string, tag string) {
+		kinds := []string{"addRecord", "setRecord", "deleteRecords", "updateSOA", "renew", "register", "setAdmin", "transfer"}
+		g.rng.Shuffle(len(kinds), func(i, j int) { kinds[i], kinds[j] = kinds[j], kinds[i] })
+		for _, k := range kinds[:3+g.rng.IntN(3)] {
+			t := g.advance()
+			switch k {
+			case "addRecord":
+				out = append(out, g.line(t, hs, 0, 0, "addRecord", hexs(n), fmt.Sprint(typTXT), hexs(fmt.Sprintf("%s%d", tag, g.nTXT))))
+			case "setRecord":
+				out = append(out, g.line(t, hs, 0, 0, "setRecord", hexs(n), fmt.Sprint(typTXT), "0", hexs(fmt.Sprintf("%ss%d", tag, g.nTXT))))
+			case "deleteRecords":
+				out = append(out, g.line(t, hs, 0, 0, "deleteRecords", hexs(n), fmt.Sprint(typTXT)))
+			case "updateSOA":
+				out = append(out, g.line(t, hs, 0, 0, "updateSOA", hexs(n), hexs("f@x"), "7", "2", "3", "4"))
+			case "renew":
+				out = append(out, g.line(t, hs, 0, 0, "renew", hexs(n), "1"))
+			case "register":
+				child := fmt.Sprintf("f%d.%s", g.nTXT%5, n)
+				out = append(out, g.line(t, hs, 0, 0, "register", hexs(child), hs[0], hexs("e@x"), "1", "2", "50", "4"))
+			case "setAdmin":
+				out = append(out, g.line(t, hs, 0, 0, "setAdmin", hexs(n), hs[0]))
+			case "transfer":
+				out = append(out, g.line(t, hs, 0, 0, "transfer", hs[0], hexs(n)))
+			}
+		}
+	}
+	mutate([]string{adm}, "fa")
+	mutate([]string{owner}, "fo")
+	mutate([]string{adm, owner}, "fb")
+	out = append(out, g.line(g.advance(), []string{to}, 0, 0, "addRecord", hexs(n), fmt.Sprint(typTXT), hexs(fmt.Sprintf("new%d", g.nTXT))),
+		g.q(g.t, "getRecords", hexs(n), fmt.Sprint(typTXT)), g.q(g.t, "properties", hexs(n)))
+	return out
+}
+
+// genDeepConflict: the sub-name conflict rule at every depth. Below a registered name p an unregistered name
+// c = l1.p is chosen; the owner of p stores records (kept under p's token) for names two, three or four labels
+// below c's parent — i.e. one or more labels below c, with further unregistered labels in between — and for the
+// true-negative neighbours: a sibling whose text merely ends with c ("x"+c), a record exactly at c, a record one
+// label below c. Then isAvailable(c) and register(c) are tried (and isAvailable of the deeper intermediate
+// names), the records are deleted one by one with isAvailable(c) after each, and c is registered once free.
+func (g *gen) genDeepConflict() []string {
+	var cands []string
+	for _, n := range g.liveNames(2) {
+		if ns := g.w.prev.names[n]; len(labels(n)) <= 3 && len(ns.owner) == 20 {
+			if _, ok := g.w.users[hx.Hex(ns.owner)]; ok {
+				cands = append(cands, n)
+			}
+		}
+	}
+	if len(cands) == 0 {
+		return g.genRegister()
+	}
+	p := hx.Pick(g.rng, cands)
+	owner := hx.Hex(g.w.prev.names[p].owner)
+	// an unregistered direct child of p
+	c := ""
+	for _, l := range []string{"fs", "cdn", "a", "b", "xa", "n1", "n2", "n3"} {
+		if _, ok := g.w.prev.names[l+"."+p]; !ok && (c == "" || g.p(35)) {
+			c = l + "." + p
+		}
+	}
+	if c == "" {
+		return g.genRegister()
+	}
+	deepLabs := []string{"node1", "cdn", "a", "xa", "b"}
+	var recs []string
+	add := func(n string) { recs = append(recs, n) }
+	if g.p(85) { // two or more labels below c (three or more below p): the shape a one-label test misses
+		n := c
+		for i, d := 0, 2+g.rng.IntN(2); i < d; i++ {
+			n = hx.Pick(g.rng, deepLabs) + "." + n
+		}
+		add(n)
+	}
+	if g.p(20) {
+		add(hx.Pick(g.rng, deepLabs) + "." + c) // one label below c
+	}
+	if g.p(30) {
+		add(c) // exactly at c: no sub-name
+	}
+	if g.p(30) {
+		add("x" + c) // a sibling of c whose text ends with c
+	}
+	if g.p(20) {
+		add(hx.Pick(g.rng, deepLabs) + ".x" + c) // below the sibling
+	}
+	if len(recs) == 0 {
+		add("node1.cdn." + c)
+	}
+	g.rng.Shuffle(len(recs), func(i, j int) { recs[i], recs[j] = recs[j], recs[i] })
+	var out []string
+	u := g.user()
+	tryRegister := func() {
+		t := g.advance()
+		out = append(out, g.q(t, "isAvailable", hexs(c)), g.q(t, "isAvailable", hexs("x"+c)))
+		out = append(out, g.line(t, []string{owner, u}, 0, 0, "register", hexs(c), u, hexs("e@x"), "1", "2", "1000", "4"))
+		out = append(out, g.q(t, "isAvailable", hexs(c)), g.q(t, "ownerOf", hexs(c)))
+	}
+	for _, r := range recs {
+		g.nTXT++
+		out = append(out, g.line(g.advance(), []string{owner}, 0, 0, "addRecord", hexs(r), fmt.Sprint(typTXT), hexs(fmt.Sprintf("d%d", g.nTXT))))
+		out = append(out, g.q(g.t, "isAvailable", hexs(c)))
+		// the intermediate names between the record and c
+		for ls := labels(r); len(ls) > len(labels(c))+1; {
+			ls = ls[1:]
+			out = append(out, g.q(g.t, "isAvailable", hexs(strings.Join(ls, "."))))
+		}
+	}
+	tryRegister()
+	for _, r := range recs {
+		out = append(out, g.q(g.t, "resolve", hexs(r), fmt.Sprint(typTXT)), g.q(g.t, "getRecords", hexs(r), fmt.Sprint(typTXT)))
+	}
+	if g.p(70) {
+		for i, r := range recs {
+			out = append(out, g.line(g.advance(), []string{owner}, 0, 0, "deleteRecords", hexs(r), fmt.Sprint(typTXT)))
+			out = append(out, g.q(g.t, "isAvailable", hexs(c)))
+			if i+1 < len(recs) && g.p(30) {
+				tryRegister()
+			}
+		}
+		tryRegister()
+	}
 	return out
 }
